@@ -462,3 +462,97 @@ func Aux(m *Model, ts *typesystem.TypeSystem, user string) map[string]bool {
 	}
 	return aux
 }
+
+// GenStrategyModel builds models on which the planner has a choice: weight-two eligible usersets and
+// tuple-to-usersets (the referenced relation is a set expression over directly assignable relations)
+// and recursive relations (self-referencing userset / TTU).
+func GenStrategyModel(r *hx.Rand) (*Model, *typesystem.TypeSystem) {
+	for try := 0; ; try++ {
+		m := &Model{Types: []*TypeDef{{Name: "user"}}}
+		if r.Chance(2, 3) {
+			m.Conds = append(m.Conds, &CondDef{Name: "c1", Param: "x", Op: hx.Pick(r, []string{"lt", "ge"}), Const: 10})
+		}
+		cond := func() string {
+			if len(m.Conds) > 0 && r.Chance(1, 3) {
+				return "c1"
+			}
+			return ""
+		}
+		direct := func(name string) *RelDef {
+			rd := &RelDef{Name: name, Rewrite: &Rewrite{Kind: "this"}, Restrs: []Restr{{Typ: "user", Cond: cond()}}}
+			if r.Chance(1, 3) {
+				rd.Restrs = append(rd.Restrs, Restr{Typ: "user", Wild: true, Cond: cond()})
+			}
+			if r.Chance(1, 5) {
+				rd.Restrs = append(rd.Restrs, Restr{Typ: "user", Cond: "c1"})
+				if len(m.Conds) == 0 {
+					rd.Restrs = rd.Restrs[:len(rd.Restrs)-1]
+				}
+			}
+			rd.Restrs = dedupRestrs(rd.Restrs)
+			return rd
+		}
+		var setTree func(d int, self *bool) *Rewrite
+		setTree = func(d int, self *bool) *Rewrite {
+			if d >= 2 || r.Chance(2, 5) {
+				switch r.Intn(4) {
+				case 0:
+					*self = true
+					return &Rewrite{Kind: "this"}
+				default:
+					return &Rewrite{Kind: "cu", Rel: hx.Pick(r, []string{"a", "b", "c"})}
+				}
+			}
+			switch r.Intn(3) {
+			case 0:
+				return &Rewrite{Kind: "union", Kids: []*Rewrite{setTree(d+1, self), setTree(d+1, self)}}
+			case 1:
+				return &Rewrite{Kind: "inter", Kids: []*Rewrite{setTree(d+1, self), setTree(d+1, self)}}
+			default:
+				return &Rewrite{Kind: "diff", Kids: []*Rewrite{setTree(d+1, self), setTree(d+1, self)}}
+			}
+		}
+		grp := &TypeDef{Name: "group", Rels: []*RelDef{direct("a"), direct("b"), direct("c")}}
+		self := false
+		mem := &RelDef{Name: "member", Rewrite: setTree(0, &self)}
+		if self {
+			mem.Restrs = []Restr{{Typ: "user", Cond: cond()}}
+		}
+		grp.Rels = append(grp.Rels, mem)
+		// recursive userset
+		grp.Rels = append(grp.Rels, &RelDef{Name: "rmember", Rewrite: &Rewrite{Kind: "this"},
+			Restrs: []Restr{{Typ: "user"}, {Typ: "group", Rel: "rmember", Cond: cond()}}})
+		fld := &TypeDef{Name: "folder", Rels: []*RelDef{
+			{Name: "parent", Rewrite: &Rewrite{Kind: "this"}, Restrs: []Restr{{Typ: "folder", Cond: cond()}}},
+			direct("a"), direct("b"),
+			{Name: "viewer", Rewrite: &Rewrite{Kind: hx.Pick(r, []string{"union", "inter", "diff"}), Kids: []*Rewrite{{Kind: "cu", Rel: "a"}, {Kind: "cu", Rel: "b"}}}},
+			{Name: "rviewer", Rewrite: &Rewrite{Kind: "union", Kids: []*Rewrite{{Kind: "this"}, {Kind: "ttu", Tupleset: "parent", Computed: "rviewer"}}}, Restrs: []Restr{{Typ: "user", Cond: cond()}}},
+		}}
+		docRels := []*RelDef{
+			{Name: "parent", Rewrite: &Rewrite{Kind: "this"}, Restrs: []Restr{{Typ: "folder", Cond: cond()}}},
+		}
+		v := &RelDef{Name: "viewer", Rewrite: &Rewrite{Kind: "this"}, Restrs: []Restr{{Typ: "group", Rel: "member", Cond: cond()}}}
+		if r.Chance(1, 2) {
+			v.Restrs = append(v.Restrs, Restr{Typ: "user"})
+		}
+		if r.Chance(1, 3) {
+			v.Restrs = append(v.Restrs, Restr{Typ: "group", Rel: "a"})
+		}
+		if r.Chance(1, 3) {
+			v.Restrs = append(v.Restrs, Restr{Typ: "group", Rel: "rmember"})
+		}
+		docRels = append(docRels, v)
+		docRels = append(docRels, &RelDef{Name: "can", Rewrite: &Rewrite{Kind: "ttu", Tupleset: "parent", Computed: hx.Pick(r, []string{"viewer", "a", "rviewer"})}})
+		if r.Chance(1, 2) {
+			docRels = append(docRels, &RelDef{Name: "ok", Rewrite: &Rewrite{Kind: hx.Pick(r, []string{"inter", "diff", "union"}), Kids: []*Rewrite{{Kind: "cu", Rel: "viewer"}, {Kind: "cu", Rel: "can"}}}})
+		}
+		m.Types = append(m.Types, grp, fld, &TypeDef{Name: "doc", Rels: docRels})
+		ts, err := typesystem.NewAndValidate(context.Background(), m.Proto("01HVMMBCMGZNT3SED4Z17ECXCA"))
+		if err == nil {
+			return m, ts
+		}
+		if try > 200 {
+			panic("strategy generator cannot produce a valid model: " + err.Error())
+		}
+	}
+}
